@@ -18,6 +18,8 @@ static void dump_ins(echs_instruc_t ins, int *first)
 	if (ins.v == INSVERB_SCHE) {
 		if (ins.t) { fputs(",\"t\":", o); dump_task_json(o, ins.t, 20); free_echs_task(ins.t); }
 		else fputs(",\"t\":null", o);
+		/* the oid slot of the instruction, unused for this verb: whatever it holds belongs to the instruction as handed out */
+		if (ins.o) { const char *u = obint_name(ins.o); fputs(",\"o\":", o); if (u) nd_str(o, u, strlen(u)); else fputs("\"?\"", o); }
 	} else {
 		const char *u = ins.o ? obint_name(ins.o) : NULL;
 		fputs(",\"o\":", o); if (u) nd_str(o, u, strlen(u)); else fputs("null", o);
